@@ -43,6 +43,7 @@ def run(ctx, rep):
     rep.rule("R10.4", "the arithmetic of add/decref is consistent (removed <=> outstanding - returned <= 0) and runs under the lock")
     rep.rule("R10.5", "closing releases everything the connection held")
     rep.rule("R10.6", "exports are counted and proxies are cached weakly (constructor table of the connection state)")
+    rep.rule("R10.9", "only _unbox consults the proxy cache: whoever hands out a cached proxy must also count the reference (the factory always builds a fresh one)")
     rep.rule("R10.8", "the proxy finalizer is the proxy's own: __del__ (like every method of the proxy base class) stays in the local "
              "names, so a target's own __del__ never shadows the one that sends the release (= R02.3)")
     rep.rule("R10.7", "every reference the peer lent in a message is materialised as a proxy (whose death returns it): replies and "
@@ -306,3 +307,7 @@ def run(ctx, rep):
            ctx.loc(look[0]) if look else fdr.loc)
     K.share(ctx, rep, "c02", lambda o: o.rule == "R02.3" and ("every method defined by BaseNetref" in o.key or
                                                              "relies on" in o.key or "__slots__" in o.key), "R10.8", floor=2)
+    from . import hygiene as H
+    H.who_may_touch(ctx, rep, "R10.9", K.CONN, "_proxy_cache", {"__init__", "_cleanup", "_unbox"},
+                    "a cached proxy returned from anywhere but _unbox's own cache branch is treated as new there and its count is not "
+                    "incremented: the owner has counted two references, the peer releases one")
